@@ -31,6 +31,15 @@ def gate1(ctx, rule="GATE-1"):
         S = Sym(prog, f)
         muts = set(Sm.mutation_blocks(f))
         vv = [(b, t) for b, t in f.calls() if cname(prog, t) == IVV]
+        searched = None
+        if not vv:
+            # the same test inside a closure that searches the row for an offending value: columns.iter().zip(values).find(|(c, v)| !c.is_valid_value(v))
+            from ..lib import lifted_closures
+            for L in lifted_closures(prog, f, S):
+                if L.call_block is not None and any(cname(prog, t) == IVV for b, t in L.fn.calls()) and \
+                        re.search(r"Iterator>?::(find|any|all|position|find_map)$", cname(prog, f.blocks[L.call_block]["term"])):
+                    searched = L
+                    vv = [(L.call_block, f.blocks[L.call_block]["term"])]
         if not ctx.check(len(vv) == 1, rule, "%s::exec validates values" % name, "", "%s::exec calls Column::is_valid_value %d times (expected once, in the validation loop)" % (name, len(vv)), f.loc(), fn=f.name,
                          key="%s|%s|call" % (rule, name)):
             continue
@@ -38,6 +47,8 @@ def gate1(ctx, rule="GATE-1"):
         errs = {b: k for (b, t, k, m) in error_sites(prog, f)}
         nb = vt["succ"][0]
         fail = [e for e in errs if e in cfg.reachable(f, nb, avoid=muts) and has_fact(S, e, r"Column::is_valid_value", False)]
+        if searched is not None:
+            fail = [e for e in errs if e in cfg.reachable(f, nb, avoid=muts) and any(("call@%d:" % vb) in ex and tr in (("==", 1), True) for (ex, tr, g) in S.bool_facts_at(e))]
         ctx.check(bool(fail) and all(errs[e] == "InvalidInput" for e in fail), rule, "%s::exec rejects an invalid value" % name, "InvalidInput on the false edge",
                   "the false edge of is_valid_value in %s::exec does not lead to an InvalidInput error" % name, f.loc(vt["sp"]), fn=f.name, key="%s|%s|reject" % (rule, name))
         loops = cfg.natural_loops(f)
@@ -67,7 +78,7 @@ def gate1(ctx, rule="GATE-1"):
 GATE2 = {
     "Insert": [("NotFound", r"discr\(std::collections::BTreeMap::<K, V, A>::get\(&\*p4,&p1\.table_name\)\)", ("==", 0), "unknown table"),
                ("InvalidInput", [(r"Vec::<T, A>::len\(.*\) Ne ", True), (r"Vec::<T, A>::len\(.*\) Eq ", False), (r" Ne .*Vec::<T, A>::len\(", True), (r" Eq .*Vec::<T, A>::len\(", False)], None, "wrong number of values"),
-               ("InvalidInput", r"Column::is_valid_value", False, "invalid value"),
+               ("InvalidInput", [(r"Column::is_valid_value", False), (r"^discr\(call@\d+:.*Iterator>?::(find|position|find_map)\)$", ("==", 1))], None, "invalid value"),
                ("InvalidData", r"BTreeMap::<K, V, A>::contains_key\(", True, "stored table already malformed (duplicate key on disk)"),
                ("AlreadyExists", r"BTreeMap::<K, V, A>::contains_key\(", True, "duplicate key (existing row)"),
                ("InvalidInput", r"HashSet::<T, S, A>::contains\(", True, "duplicate key (within the batch)"),
